@@ -300,6 +300,14 @@ class TagList(UserList[TagNode]):
 
         self[i:i] = _tagchilds_to_tagnodes([item])
 
+    def __iadd__(self, other: Iterable[TagChild]) -> TagList:
+        """
+        Extend the children in place (`x += other`), normalizing like `extend()`.
+        """
+
+        self.extend(other)
+        return self
+
     def __add__(self, item: Iterable[TagChild]) -> TagList:
         """
         Return a new TagList with the item added at the end.
